@@ -27,6 +27,7 @@ def main():
     ap.add_argument("--seed", default="1")
     ap.add_argument("--examples")
     ap.add_argument("--keep", action="store_true")
+    ap.add_argument("--demo", help="demonstration script: must exit 0 on /repo and non-zero on the changed tree")
     ap.add_argument("rest", nargs="*")
     a = ap.parse_args()
     rest = a.rest
@@ -56,6 +57,14 @@ def main():
                 print(f"PATTERN-NOT-FOUND {name}: {old!r}")
                 return 2
             open(fn, "w").write(s.replace(old, new, 1))
+        if a.demo:
+            r0 = subprocess.run(["/venv/bin/python", os.path.abspath(a.demo)], cwd=dst, capture_output=True, text=True,
+                                env=dict(os.environ, PYTHONPATH="/repo", PYTHONWARNINGS="ignore"))
+            r1 = subprocess.run(["/venv/bin/python", os.path.abspath(a.demo)], cwd=dst, capture_output=True, text=True,
+                                env=dict(os.environ, PYTHONPATH=work, PYTHONWARNINGS="ignore"))
+            print(f"[{name}] demo: unchanged tree rc={r0.returncode} ({(r0.stdout.strip().splitlines() or ['-'])[-1][:80]}), "
+                  f"changed tree rc={r1.returncode} ({(r1.stdout.strip().splitlines() or ['-'])[-1][:80]})"
+                  + ("" if (r0.returncode == 0 and r1.returncode != 0) else "   DEMO-NOT-CONFIRMED"))
         if a.tests:
             base = json.load(open("/root/.vp/BASELINE.json"))
             junit = os.path.join(dst, "junit.xml")
